@@ -53,3 +53,28 @@ UNITS = [
 #       assumed=BORACLES, functions=BFUNCS, timeout=5400, min_obl=100, unwind=34, unwindset=["secp256k1_borromean_verify.0:5", "secp256k1_borromean_verify.1:33", "h_borromean_verify.2:129"],
 #       tier="thorough", mem_gb=16, closed_by="full unwinding to 32 rings x 4 members (the layouts the range-proof verifier produces)", note="NOT COMPLETED at authoring time (size)"),
 ]
+
+# ---- verify_impl for EVERY header: digit loop and ring-scalar loop closed by loop contracts (engine-supplied, no /repo edit) ----
+ACCJ_OK = "accj.x.n[0] <= 36028797018963960ul && accj.x.n[1] <= 36028797018963960ul && accj.x.n[2] <= 36028797018963960ul && accj.x.n[3] <= 36028797018963960ul && accj.x.n[4] <= 2251799813685240ul && accj.y.n[0] <= 36028797018963960ul && accj.y.n[1] <= 36028797018963960ul && accj.y.n[2] <= 36028797018963960ul && accj.y.n[3] <= 36028797018963960ul && accj.y.n[4] <= 2251799813685240ul && accj.z.n[0] <= 9007199254740990ul && accj.z.n[1] <= 9007199254740990ul && accj.z.n[2] <= 9007199254740990ul && accj.z.n[3] <= 9007199254740990ul && accj.z.n[4] <= 562949953421310ul && (accj.infinity == 0 || accj.infinity == 1)"
+RPL_GHOSTS = "rpl_fl_hit, rpl_fl_now, rpl_fl_all, rpl_xq_hit, rpl_xq_v, rpl_xq_all, rpl_xq_r, rpl_ag_hit, rpl_ag_same, rpl_ag_negd, rpl_ag_last_inf, rpl_ag_last_is_commit"
+VERIFY_LOOPS = {"secp256k1_rangeproof_verify_impl": {
+    2: {"assigns": "i, offset, npub, accj, c, sha256_m, __CPROVER_object_whole(pubs), g_h_fresh, g_w_hit, g_w_byte, g_w_started, g_w_s0, g_w_s7, g_w_b0, " + RPL_GHOSTS,
+        "invariants": "i <= rings - 1 && offset == __CPROVER_loop_entry(offset) + 32 * i && npub == 4 * i && sha256_m.bytes == __CPROVER_loop_entry(sha256_m.bytes) + 33 * i && " + ACCJ_OK + " && "
+                      "rpl_fl_all == 1 && rpl_xq_all == 1 && "
+                      "(g_rp_k >= i ==> (rpl_fl_hit == 0 && rpl_fl_now == 0 && rpl_xq_hit == 0 && rpl_ag_hit == 0)) && "
+                      "(g_rp_k < i ==> (rpl_fl_hit == 1 && rpl_fl_wv == 1 && rpl_xq_hit == 1 && rpl_xq_v == 1 && rpl_ag_hit == 1 && (signs[g_rp_k] != 0 ? rpl_ag_negd != 0 : rpl_ag_same != 0)))",
+        "decreases": "rings - 1 - i"},
+    3: {"assigns": "i, offset, overflow, __CPROVER_object_whole(s), rpl_sb_hit, rpl_sb_any",
+        "invariants": "i <= npub && offset == __CPROVER_loop_entry(offset) + 32 * i && rpl_sb_any == 0 && "
+                      "(g_rp_k < i ==> (rpl_sb_hit == 1 && rpl_sb_wovf == 0 && s[g_rp_k].d[0] == rpl_sb_wr.d[0] && s[g_rp_k].d[1] == rpl_sb_wr.d[1] && s[g_rp_k].d[2] == rpl_sb_wr.d[2] && s[g_rp_k].d[3] == rpl_sb_wr.d[3]))",
+        "decreases": "npub - i"}}}
+UNITS.append(U("C10.verify_gates_all", ["C10", "C07"], "harness/C10/verify_loops.c", "h_verify_loops",
+      replace=["secp256k1_rangeproof_pub_expand", "secp256k1_rangeproof_genrand", "secp256k1_rangeproof_ch32xor"],
+      assumed=VORACLES + ["secp256k1_rangeproof_genrand", "secp256k1_rangeproof_ch32xor", "secp256k1_pedersen_ecmult", "secp256k1_scalar_mul", "secp256k1_scalar_inverse",
+                          "secp256k1_scalar_clear", "secp256k1_memclear_explicit", "memset", "memcpy"],   # the last nine only occur in the rewind branch, dead with nonce == NULL; stubbed to keep goto-instrument's inlining small
+      functions=VFUNCS, loop_contracts=VERIFY_LOOPS,
+      timeout=3600, min_obl=100, unwind=34, unwindset=["secp256k1_rangeproof_verify_impl.0:33", "secp256k1_rangeproof_verify_impl.1:33"],
+      tier="thorough", slice_formula=True, object_bits=10,
+      closed_by="loop contracts on the digit loop and the ring-scalar loop (engine-supplied --loop-contracts-file, no /repo edit; invariants: offsets, representation range of the accumulator, "
+                "'watched index < i => its range check, lift verdict and accumulation were seen and positive'); the ring-size and sign-bit loops are unwound to their code-enforced bound (32)",
+      note="EVERY header (mantissa 0..64, 32 rings, 128 ring members), all proof byte strings of length <= 6000; MiniSat, 10 object bits, formula slicing"))
